@@ -553,7 +553,7 @@ def handlePegMemo (args : List String) : String :=
         | .accept t => "A " ++ t.sexp
         | .reject => "REJECT"
         | .depth => "EUnmodelled"
-      s!"{m} #{calls} | {plain} #{calls} | "
+      s!"{m} #{calls} | - | {if m == plain then "" else "memo-differs-from-plain"}"
   | _ => "bad-op"
 
 /-! lexer: `lx <S text>` (Lexer.parse), `lt <class> <S text>` (one class's `get`), `lp <S text>` (lex, then the token-set parser) -/
